@@ -39,6 +39,12 @@ if a.returncode != 0:
     a3 = sh(f"git -C /repo apply --3way {patch}")
     out["applied_to_repo"] = a3.returncode == 0
     out["apply_err"] = (a.stderr + a3.stderr)[-300:]
+import shutil as _sh
+_bak = {}
+for p in args:
+    f = f"/verif/evidence/{p}.json"
+    if os.path.exists(f):
+        _bak[f] = f + ".bak"; _sh.copy(f, f + ".bak")
 try:
     for p in args if out["applied_to_repo"] else []:
         t0 = time.time()
@@ -47,4 +53,6 @@ try:
         out[p] = {"exit": r.returncode, "violations": len([l for l in lines if l.startswith("VIOLATION")]), "s": round(time.time() - t0), "first": lines[:2], "tail": r.stdout.strip().split("\n")[-1][:200], "err": r.stderr[-300:] if r.returncode not in (0, 1) else ""}
 finally:
     sh("git -C /repo reset -q --hard HEAD")
+    for f, b in _bak.items():
+        _sh.move(b, f)
 print(json.dumps(out, indent=1))
